@@ -66,6 +66,7 @@ type State struct {
 	freshRegions map[*Region]bool
 	ifaceRefined map[int]IfaceV
 	ifaceDenied  map[int]bool
+	wframe   *writeFrame // write-frame of the function under verification (nil: none declared)
 	persist  []*Term // facts that survive a cut: entry assumptions and earlier cut assertions
 	steps    int
 	trace    []string
@@ -91,6 +92,7 @@ func (st *State) clone() *State {
 		sidePending: st.sidePending,
 		entropyReads: st.entropyReads[:len(st.entropyReads):len(st.entropyReads)],
 		freshRegions: copyRegionSet(st.freshRegions),
+		wframe:   st.wframe,
 		ifaceRefined: copyIfaceMap(st.ifaceRefined),
 		ifaceDenied:  copyIntSet(st.ifaceDenied),
 		steps:    st.steps,
